@@ -94,6 +94,20 @@ macro_rules! scalar_drivers {
                     let r3 = try_third_derivative(|_v: Dual3<$F, $F>| Err::<Dual3<$F, $F>, u32>(e), x0);
                     $rep.check(&format!("try_third_derivative:err:{}", $tag), $case, r3 == Err(e), format!("{:?}", r3), format!("Err({e})"));
                 }
+                // the drivers over a scalar type that is itself a dual number (T = Dual / Dual2 seeded in x): every output
+                // carries the derivative of one order more, so the four numbers of this case fix all of them
+                let one = 1.0 as $F;
+                let r = second_derivative(|v| poly::<_, $F>(t, &[v]), Dual::<$F, $F>::new(x0, one));
+                $rep.check(&format!("second_derivative<Dual>:{}", $tag), $case,
+                           vec![r.0.re, r.1.re, r.2.re] == w[0..3] && vec![r.0.eps, r.1.eps, r.2.eps] == w[1..4], format!("{:?}", r), format!("{:?}", w));
+                let r2 = try_second_derivative(|v| Ok::<_, u32>(poly::<_, $F>(t, &[v])), Dual::<$F, $F>::new(x0, one));
+                $rep.check(&format!("try_second_derivative<Dual>:{}", $tag), $case, r2 == Ok(r), format!("{:?}", r2), format!("{:?}", r));
+                let r = first_derivative(|v| poly::<_, $F>(t, &[v]), Dual2::<$F, $F>::new(x0, one, 0.0 as $F));
+                $rep.check(&format!("first_derivative<Dual2>:{}", $tag), $case,
+                           vec![r.0.re, r.0.v1, r.0.v2] == w[0..3] && vec![r.1.re, r.1.v1, r.1.v2] == w[1..4], format!("{:?}", r), format!("{:?}", w));
+                let r = third_derivative(|v| poly::<_, $F>(t, &[v]), Dual::<$F, $F>::new(x0, 0.0 as $F));
+                $rep.check(&format!("third_derivative<Dual>:{}", $tag), $case,
+                           vec![r.0.re, r.1.re, r.2.re, r.3.re] == w && r.0.eps == 0.0 as $F && r.3.eps == 0.0 as $F, format!("{:?}", r), format!("{:?}", w));
             }
             "second_partial_derivative" => {
                 let (x0, y0) = ($x[0] as $F, $x[1] as $F);
@@ -118,6 +132,16 @@ macro_rules! scalar_drivers {
                 for e in ERRS {
                     let r3 = try_third_partial_derivative_vec(|_v: &[HyperHyperDual<$F, $F>]| Err::<HyperHyperDual<$F, $F>, u32>(e), &xs, i, j, k);
                     $rep.check(&format!("try_third_partial_derivative_vec:err:{}", $tag), $case, r3 == Err(e), format!("{:?}", r3), format!("Err({e})"));
+                }
+                if xs.len() == 2 && (i, j) == (0, 1) {
+                    // second_partial_derivative over T = Dual seeded in variable k: real parts (f, f_x, f_y, f_xy), outer parts
+                    // (f_k, f_xk, f_yk, f_xyk) -- all of them entries of this case
+                    let sd = |q: usize| if k == q { 1.0 as $F } else { 0.0 as $F };
+                    let r = second_partial_derivative(|a, b| poly::<_, $F>(t, &[a, b]), Dual::<$F, $F>::new(xs[0], sd(0)), Dual::<$F, $F>::new(xs[1], sd(1)));
+                    let ok = vec![r.0.re, r.1.re, r.2.re, r.3.re] == vec![w[0], w[1], w[2], w[4]] && vec![r.0.eps, r.1.eps, r.2.eps, r.3.eps] == vec![w[3], w[5], w[6], w[7]];
+                    $rep.check(&format!("second_partial_derivative<Dual>:{}", $tag), $case, ok, format!("{:?}", r), format!("{:?}", w));
+                    let r2 = try_second_partial_derivative(|a, b| Ok::<_, u32>(poly::<_, $F>(t, &[a, b])), Dual::<$F, $F>::new(xs[0], sd(0)), Dual::<$F, $F>::new(xs[1], sd(1)));
+                    $rep.check(&format!("try_second_partial_derivative<Dual>:{}", $tag), $case, r2 == Ok(r), format!("{:?}", r2), format!("{:?}", r));
                 }
                 if xs.len() == 3 && (i, j, k) == (0, 1, 2) {
                     // the three-argument form seeds x, y, z in this order
@@ -163,6 +187,15 @@ macro_rules! grad_hess {
             $rep.check(&format!("try_hessian:{}", $tag), $case, r2 == Ok((f, g.clone(), h.clone())), format!("{:?}", r2), "same as hessian".into());
             let r3 = try_hessian(|_v: OVector<Dual2Vec<$F, $F, $D>, $D>| Err::<Dual2Vec<$F, $F, $D>, u32>(5), xv.clone());
             $rep.check(&format!("try_hessian:err:{}", $tag), $case, r3 == Err(5), format!("{:?}", r3), "Err(5)".into());
+            // gradient over T = Dual seeded in x_0: outer parts are d/dx_0 of (f, grad) = (grad_0, row 0 of the Hessian)
+            if n >= 1 {
+                let xd: OVector<Dual<$F, $F>, $D> = OVector::<Dual<$F, $F>, $D>::from_iterator_generic($dim, Const::<1>,
+                    $x.iter().enumerate().map(|(q, v)| Dual::<$F, $F>::new(*v as $F, if q == 0 { 1.0 as $F } else { 0.0 as $F })));
+                let (fd, gd) = gradient(|v: OVector<DualVec<Dual<$F, $F>, $F, $D>, $D>| poly::<_, $F>(t, v.as_slice()), xd);
+                let mut ok = fd.re == wf && fd.eps == wg[0] && gd.nrows() == n;
+                for q in 0..n { ok = ok && gd[q].re == wg[q] && gd[q].eps == wh[0][q] as $F; }
+                $rep.check(&format!("gradient<Dual>:{}", $tag), $case, ok, format!("{:?}", (fd, gd.as_slice())), format!("{:?}", (wf, &wg, &wh)));
+            }
         }
     }};
 }
